@@ -6,7 +6,8 @@ CONSTANTS
   FixAttach = TRUE
   Literal = TRUE
   FixDel = TRUE
+  CreateNils = TRUE
 SPECIFICATION Spec
-INVARIANTS MutualExclusion NoDeadlock NoLockLeft ReturnedHoldNothing Linearizable
+INVARIANTS MutualExclusion NoUseAfterRelease NoDeadlock NoLockLeft ReturnedHoldNothing Linearizable
 PROPERTIES EveryOpReturns
 CHECK_DEADLOCK FALSE
